@@ -24,6 +24,10 @@ func (g *whichOneofGen) genComment() {
 
 func (g *whichOneofGen) genFunc() {
 	g.P("func (x *", g.typeName, ") WhichOneof(d ", protoreflectPkg.Ident("OneofDescriptor"), ") ", protoreflectPkg.Ident("FieldDescriptor"), " {")
+	// a nil receiver is the read-only empty message: read it as the zero value
+	g.P("if x == nil {")
+	g.P("x = new(", g.typeName, ")")
+	g.P("}")
 	g.P("switch d.FullName() {")
 	for _, oneof := range g.message.Oneofs {
 		g.P("case \"", oneof.Desc.FullName(), "\": ")
